@@ -51,3 +51,13 @@ void M__ZN4llvm15SmallVectorBase8grow_podEPvmm(void* self, void* firstEl, uint64
 }
 void M__ZNSt8ios_base4InitC1Ev(void* p) {}
 void M__ZNSt8ios_base4InitD1Ev(void* p) {}
+/* function-local statics: single-threaded guard */
+uint32_t M___cxa_guard_acquire(void* g) { return *(uint8_t*)g == 0; }
+void M___cxa_guard_release(void* g) { *(uint8_t*)g = 1; }
+/* std::string(const char*, const allocator&) */
+void M__ZNSt7__cxx1112basic_stringIcSt11char_traitsIcESaIcEEC2EPKcRKS3_(void* self, void* cstr, void* alloc) {
+  struct vf_string* s = (struct vf_string*)self;
+  uint64_t n = strlen((const char*)cstr);
+  if (n <= 15) s->p = s->u.local; else { s->p = (char*)vf_alloc(n + 1); s->u.cap = n; }
+  memcpy(s->p, cstr, n); s->p[n] = 0; s->len = n;
+}
